@@ -71,6 +71,8 @@ def check(case: Dict[str, Any]) -> Outcome:
         from ..fuzz.job import check_fuzz_case
 
         return check_fuzz_case(case)
+    if case.get("loop"):
+        return check_loopback(case)
     out = Outcome()
     est = case["est"]
     T = case.get("timeout", 2.0)
@@ -393,20 +395,155 @@ def job_matrix(col: Collector, seed: int, tier: str, shard: int, nshards: int) -
         col.exhaustive_parts.append("establishment kinds (incl. delays around the timeout) x 8 request modes x {str,int} id x 3 exit paths")
 
 
+def check_loopback(case: Dict[str, Any]) -> Outcome:
+    """The same delivery oracle over a real loopback HTTP server: real sockets, chunked transfer encoding,
+    every event written as the generated TCP segments (real time, so only the fast request modes)."""
+    from chuk_mcp.protocol.messages.json_rpc_message import parse_message
+    from chuk_mcp.transports.sse.parameters import SSEParameters
+    from chuk_mcp.transports.sse.sse_client import sse_client
+
+    from ..loopback import RawHTTPServer, Reply
+
+    out = Outcome()
+    reqs: List[Dict[str, Any]] = case.get("requests", [])
+    srv: List[Dict[str, Any]] = case.get("server_msgs", [])
+    cuts: List[int] = case.get("cuts", [])
+    eol = b"\r\n" if case.get("crlf") else b"\n"
+    by_id = {json.dumps(r["id"]): r for r in reqs}
+    received: List[Any] = []
+    state: Dict[str, Any] = {}
+
+    def event_bytes(msg: Dict[str, Any]) -> bytes:
+        d = json.dumps(msg, ensure_ascii=False).encode("utf-8")
+        return b"event: message" + eol + b"data: " + d + eol + eol
+
+    async def main():
+        q: asyncio.Queue = asyncio.Queue()
+
+        async def stream(sw):
+            for piece in chunked(b"event: endpoint" + eol + b"data: /messages/?session_id=lb1" + eol + eol, cuts):
+                await sw.send(piece)
+                await asyncio.sleep(0.002)
+            while True:
+                blob = await q.get()
+                if blob is None:
+                    return
+                for piece in chunked(blob, cuts):
+                    await sw.send(piece)
+                    await asyncio.sleep(0.002)
+
+        async def handler(method, path, headers, body):
+            if method == "GET":
+                return Reply(200, {"content-type": "text/event-stream"}, stream=stream)
+            try:
+                w = json.loads(body)
+            except Exception:
+                w = {}
+            rid = w.get("id") if isinstance(w, dict) else None
+            if rid is None or "method" not in w:
+                return Reply(202)
+            if rid == "probe-id":
+                return Reply(200, {"content-type": "application/json"}, json.dumps({"jsonrpc": "2.0", "id": rid, "result": {"probe": True}}).encode())
+            r = by_id.get(json.dumps(rid))
+            resp = {"jsonrpc": "2.0", "id": rid, "result": {"for": rid, "t": "\u00e9\U0001F600\u2028"}}
+            mode = r["mode"] if r else "200-body"
+            if mode == "202-then-event":
+                asyncio.get_running_loop().call_later(r.get("delta", 0.0), q.put_nowait, event_bytes(resp))
+                return Reply(202)
+            if mode == "event-then-202":
+                q.put_nowait(event_bytes(resp))
+                return Reply(202, delay=r.get("delta", 0.0))
+            if mode == "status-500-text":
+                return Reply(500, {"content-type": "text/plain"}, b"internal error")
+            return Reply(200, {"content-type": "application/json"}, json.dumps(resp, ensure_ascii=False).encode("utf-8"))
+
+        async with RawHTTPServer(handler) as server:
+            async with sse_client(SSEParameters(url=server.url, timeout=3.0)) as (r, w):
+                async def consume():
+                    try:
+                        async for m in r:
+                            received.append(m.model_dump(exclude_none=True) if hasattr(m, "model_dump") else m)
+                    except Exception:
+                        pass
+
+                cons = asyncio.ensure_future(consume())
+                for sm in srv:
+                    q.put_nowait(event_bytes(sm["wire"]))
+                for rq in reqs:
+                    await w.send(parse_message({"jsonrpc": "2.0", "id": rq["id"], "method": "tools/list", "params": {}}))
+                    await asyncio.sleep(0.12 + rq.get("delta", 0.0))
+                await w.send(parse_message({"jsonrpc": "2.0", "id": "probe-id", "method": "ping"}))
+                for _ in range(100):
+                    if any(isinstance(m, dict) and m.get("id") == "probe-id" for m in received):
+                        break
+                    await asyncio.sleep(0.02)
+                await asyncio.sleep(0.1)
+                cons.cancel()
+                try:
+                    await cons
+                except BaseException:
+                    pass
+            q.put_nowait(None)
+
+    try:
+        asyncio.run(main())
+    except Exception as e:  # noqa
+        out.fail("loopback:sse-client-raised", f"{type(e).__name__}: {e}")
+        return out
+    out.nontrivial = bool(cuts) or any(r["mode"] != "200-body" for r in reqs)
+    out.classes = ("loopback", "chunked" if cuts else "unchunked") + tuple(sorted({"mode:" + r["mode"] for r in reqs}))
+    msgs = received
+    if not any(isinstance(m, dict) and m.get("id") == "probe-id" for m in msgs):
+        out.fail("loopback:probe-not-answered", json.dumps(msgs)[:300])
+    for rq in reqs:
+        mine = [m for m in msgs if isinstance(m, dict) and "method" not in m and str(m.get("id")) == str(rq["id"])]
+        if len(mine) != 1:
+            out.fail(f"loopback:{'no' if not mine else 'duplicate'}-terminal-message:{rq['mode']}", f"request {rq['id']!r}: {json.dumps(mine)[:200]} all={json.dumps(msgs)[:300]}")
+        elif not strict_eq(mine[0].get("id"), rq["id"]):
+            out.fail("loopback:terminal-message-id-type-changed", f"{rq['id']!r} -> {mine[0].get('id')!r}")
+        elif rq["mode"] != "status-500-text" and not strict_eq((mine[0].get("result") or {}).get("t"), "\u00e9\U0001F600\u2028"):
+            out.fail("loopback:response-payload-altered", json.dumps(mine[0])[:200])
+    want = [sm["wire"] for sm in srv]
+    got = [m for m in msgs if isinstance(m, dict) and "method" in m]
+    if len(got) != len(want) or not all(strict_eq(a, b) for a, b in zip(got, want)):
+        out.fail("loopback:server-messages-lost-duplicated-or-altered", f"cuts={cuts} got {json.dumps(got)[:300]} want {json.dumps(want)[:300]}")
+    return out
+
+
+@st.composite
+def loopback_cases(draw):
+    n = draw(st.integers(1, 3))
+    reqs = []
+    for i in range(n):
+        rid = draw(st.one_of(st.sampled_from([f"r{i}", f"{100 + i}"]), st.integers(1, 50).map(lambda v, i=i: v * 4 + i)))
+        reqs.append({"id": rid, "mode": draw(st.sampled_from(["200-body", "202-then-event", "event-then-202", "status-500-text"])), "delta": draw(st.sampled_from([0.0, 0.01, 0.03]))})
+    seen = set()
+    for i, r in enumerate(reqs):
+        if str(r["id"]) in seen:
+            r["id"] = f"u{i}"
+        seen.add(str(r["id"]))
+    srv = [{"dt": 0.0, "wire": {"jsonrpc": "2.0", "method": "notifications/message", "params": {"level": "info", "data": f"n{j} \u00e9\U0001F600\u0085"}}} for j in range(draw(st.integers(0, 3)))]
+    return {"loop": True, "requests": reqs, "server_msgs": srv, "cuts": draw(st.lists(st.integers(1, 200), max_size=6)), "crlf": draw(st.booleans())}
+
+
+def job_loopback(col: Collector, seed: int, tier: str, shard: int, n: int) -> None:
+    hyp_run(col, seed * 1000 + 800 + shard, loopback_cases(), check, n)
+
+
 def job_atheris(col: Collector, seed: int, tier: str, seconds: int, corpus: str) -> None:
     from ..fuzz.job import run_fuzz_job
 
     run_fuzz_job(col, "sse_stream", seconds, seed, corpus)
 
 
-JOBS = {"atheris": job_atheris, "hyp": job_hyp, "matrix": job_matrix}
+JOBS = {"atheris": job_atheris, "hyp": job_hyp, "matrix": job_matrix, "loopback": job_loopback}
 
 
 def jobs(tier: str):
     if tier == "quick":
         return [("matrix", {"shard": s, "nshards": 8}) for s in range(8)] + [("hyp", {"shard": s, "n": 120}) for s in range(8)]
     return (
-        [("matrix", {"shard": s, "nshards": 6}) for s in range(6)] + [("hyp", {"shard": s, "n": 3000}) for s in range(10)]
+        [("matrix", {"shard": s, "nshards": 6}) for s in range(6)] + [("hyp", {"shard": s, "n": 3000}) for s in range(6)] + [("loopback", {"shard": s, "n": 40}) for s in range(4)]
         + [("atheris", {"seconds": 150, "corpus": "seeded"}), ("atheris", {"seconds": 150, "corpus": "empty"})]
     )
 
